@@ -199,6 +199,9 @@ class JacobianAssembly:
     __minimal_couplings: set[str]
     """The minimal couplings."""
 
+    __differentiated_names: set[str]
+    """The names of the inputs and outputs differentiated for the last diff in-outs."""
+
     coupled_system: CoupledSystem
     """The coupled derivative system of residuals."""
 
@@ -247,6 +250,7 @@ class JacobianAssembly:
         self.disciplines = {}
         self.__last_diff_inouts = (set(), set())
         self.__minimal_couplings = set()
+        self.__differentiated_names = set()
         self.coupled_system = CoupledSystem()
         self.__linear_solver_factory = LinearSolverLibraryFactory(use_cache=True)
 
@@ -601,6 +605,9 @@ class JacobianAssembly:
                 coupling_structure, variables, functions
             )
             self.__last_diff_inouts = diff_ios
+            self.__differentiated_names = set().union(
+                *itertools.chain.from_iterable(diff_ios_merged.values())
+            )
 
             couplings = [
                 coupl
@@ -690,6 +697,17 @@ class JacobianAssembly:
                     inputs_couplings,
                 )
             )
+
+        # Keep only the residuals of the disciplines involved in the computations:
+        # the other disciplines are not differentiated
+        # and their residual equations are independent of the requested derivatives.
+        if residual_variables:
+            residual_variables = {
+                residual: state
+                for residual, state in residual_variables.items()
+                if residual in self.__differentiated_names
+            }
+            states = list(residual_variables.values())
 
         sorted_couplings_minimal = sorted(couplings_minimal)
         couplings_and_res = sorted_couplings_minimal.copy()
